@@ -101,3 +101,264 @@ def _build_contract(n):
 
 for _n in range(1, 8):
     _build_contract(_n)
+
+
+# ------------------------------------------------------------------------------------------
+# setters: read-back + frame (exactly that quantity changes) + WF preserved
+# ------------------------------------------------------------------------------------------
+def _set_thickness_contract(n, s, finite):
+    @contract('C01.set_thickness.n%d.s%d.%s' % (n, s, 'fin' if finite else 'inf'),
+              [OP + ':Optic.set_thickness', SG + ':SurfaceGroup.positions'], ['C01'])
+    def st(c):
+        lens, v = arbitrary_lens(c, n, stop=1, finite_object=finite)
+        val = c.real('value', -20.0, 40.0)
+        z = v['z']
+        before = c.snapshot(lens=lens.surface_group)
+        with c.no_raise('C01.set_thickness.succeeds'):
+            lens.set_thickness(val, s)
+        z2 = zs(c, lens)
+        c.ensure_eq('C01.set_thickness.readback', z2[s + 1] - z2[s], val)
+        c.ensure_eq('C01.set_thickness.readback_api', c.val(lens.surface_group.get_thickness(s)), val)
+        for j in range(n - 1):
+            if j != s and (finite or j != 0):
+                c.ensure_eq('C01.set_thickness.other_gaps_unchanged', z2[j + 1] - z2[j], z[j + 1] - z[j])
+        if not finite:
+            c.ensure('C01.set_thickness.infinite_object_stays', c.isinf(z2[0]))
+        c.ensure_eq('C01.set_thickness.first_surface_at_zero', z2[1], 0)
+        c.ensure_frame('C01.set_thickness.frame', before, c.snapshot(lens=lens.surface_group),
+                       ['lens.surfaces[*].geometry.cs.z'])
+    return st
+
+
+for _n in range(3, NMAX + 2):
+    for _s in range(0, _n - 1):
+        _set_thickness_contract(_n, _s, True)
+        if _s >= 1:
+            _set_thickness_contract(_n, _s, False)
+
+
+def _setter_contract(kind, n, s, mirror=None):
+    fnmap = {'radius': 'set_radius', 'radius_plane': 'set_radius', 'conic': 'set_conic', 'index': 'set_index'}
+
+    @contract('C01.%s.n%d.s%d%s' % (kind, n, s, '' if mirror is None else '.mirror%d' % mirror),
+              [OP + ':Optic.' + fnmap[kind]], ['C01'])
+    def st(c):
+        lens, v = arbitrary_lens(c, n, stop=1, plane=((s,) if kind == 'radius_plane' else ()), tilts=True,
+                                 mirrors=(() if mirror is None else (mirror,)))
+        sg = lens.surface_group
+        before = c.snapshot(lens=sg)
+        if kind in ('radius', 'radius_plane'):
+            val = c.real('value', -90.0, 90.0, nonzero=True)
+            cs_before = sg.surfaces[s].geometry.cs
+            lens.set_radius(val, s)
+            c.ensure_eq('C01.set_radius.readback', c.val(sg.radii[s]), val)
+            c.ensure('C01.set_radius.same_frame', c.same(sg.surfaces[s].geometry.cs, cs_before))
+            if kind == 'radius_plane':
+                c.ensure_eq('C01.set_radius.plane_becomes_sphere', sg.surfaces[s].geometry.k, 0)
+                assigns = ['lens.surfaces[%d].geometry' % s, 'lens.surfaces[%d].geometry.radius' % s,
+                           'lens.surfaces[%d].geometry.k' % s]
+            else:
+                assigns = ['lens.surfaces[%d].geometry.radius' % s]
+            c.ensure_frame('C01.set_radius.frame', before, c.snapshot(lens=sg), assigns)
+        elif kind == 'conic':
+            val = c.real('value', -3.0, 2.0)
+            lens.set_conic(val, s)
+            c.ensure_eq('C01.set_conic.readback', c.val(sg.conic[s]), val)
+            c.ensure_frame('C01.set_conic.frame', before, c.snapshot(lens=sg), ['lens.surfaces[%d].geometry.k' % s])
+        elif kind == 'index':
+            val = c.real('value', 1.0, 3.0, positive=True)
+            lens.add_wavelength(0.55, is_primary=True)
+            n_before = [c.val(x) for x in lens.n()]
+            lens.set_index(val, s)
+            c.ensure_eq('C01.set_index.readback', c.val(lens.n()[s]), val)
+            for j in range(n):
+                # surfaces whose rear medium is by construction the same medium (a mirror right behind s) follow;
+                # every other surface keeps its index
+                if j != s and not (mirror is not None and mirror == s + 1 and j == mirror):
+                    c.ensure_eq('C01.set_index.other_indices_unchanged', c.val(lens.n()[j]), n_before[j])
+            c.ensure('C01.set_index.media_chain', all(
+                c.same(sg.surfaces[j].material_pre, sg.surfaces[j - 1].material_post) for j in range(1, n)))
+            c.ensure_frame('C01.set_index.frame', before, c.snapshot(lens=sg),
+                           ['lens.surfaces[%d].material_post*' % s, 'lens.surfaces[%d].material_pre*' % (s + 1)])
+    return st
+
+
+for _n in (3, 4, 5):
+    for _s in range(1, _n - 1):
+        for _k in ('radius', 'radius_plane', 'conic', 'index'):
+            _setter_contract(_k, _n, _s)
+# lenses in which two surfaces share one medium object (a mirror): editing the index behind one
+# surface must not change the index behind the others
+for (_n, _s, _m) in ((5, 1, 3), (5, 3, 2), (5, 2, 2), (4, 2, 1)):
+    _setter_contract('index', _n, _s, mirror=_m)
+
+
+def _wavelength_contract(m, primary_at, new_primary):
+    @contract('C01.add_wavelength.m%d.p%s.%s' % (m, primary_at, new_primary),
+              ['optiland/wavelength.py:WavelengthGroup.add_wavelength', OP + ':Optic.add_wavelength',
+               'optiland/wavelength.py:WavelengthGroup.primary_index'], ['C01'])
+    def wl(c):
+        WG = c.mod('optiland.wavelength')
+        Optic = c.mod('optiland.optic').Optic
+        lens = Optic()
+        for j in range(m):          # arbitrary state with exactly one primary
+            lens.wavelengths.wavelengths.append(WG.Wavelength(c.real('w%d' % j, 0.3, 2.0, positive=True),
+                                                              is_primary=(j == primary_at)))
+        w = c.real('w_new', 0.3, 2.0, positive=True)
+        olds = [x.value for x in lens.wavelengths.wavelengths]
+        lens.add_wavelength(w, is_primary=new_primary)
+        ws = lens.wavelengths.wavelengths
+        c.ensure('C01.add_wavelength.exactly_one_primary', sum(1 for x in ws if x.is_primary) == 1)
+        c.ensure('C01.add_wavelength.count', len(ws) == m + 1)
+        c.ensure_eq('C01.add_wavelength.value', ws[-1].value, w)
+        for j in range(m):
+            c.ensure_eq('C01.add_wavelength.others_unchanged', ws[j].value, olds[j])
+        if new_primary or m == 0:
+            c.ensure('C01.add_wavelength.new_is_primary', lens.wavelengths.primary_index == m)
+        else:
+            c.ensure('C01.add_wavelength.primary_kept', lens.wavelengths.primary_index == primary_at)
+    return wl
+
+
+for _m in range(0, 4):
+    for _p in (range(_m) if _m else [None]):
+        for _np_ in (True, False):
+            _wavelength_contract(_m, _p, _np_)
+
+
+# ------------------------------------------------------------------------------------------
+# pickups
+# ------------------------------------------------------------------------------------------
+def _pickup_contract(attr, src, tgt, n=5):
+    @contract('C01.pickup.%s.s%d.t%d' % (attr, src, tgt),
+              ['optiland/pickup.py:Pickup.apply', 'optiland/pickup.py:Pickup._get_value',
+               'optiland/pickup.py:Pickup._set_value', 'optiland/pickup.py:PickupManager.add',
+               'optiland/pickup.py:PickupManager.apply', OP + ':Optic.update'], ['C01'])
+    def pk(c):
+        lens, v = arbitrary_lens(c, n, stop=1)
+        sg = lens.surface_group
+        scale = c.real('scale', -2.0, 2.0)
+        offset = c.real('offset', -5.0, 5.0)
+
+        def get(idx):
+            if attr == 'radius':
+                return c.val(sg.radii[idx])
+            if attr == 'conic':
+                return c.val(sg.conic[idx])
+            return c.val(sg.get_thickness(idx))
+        src0 = get(src)
+        if attr == 'radius':
+            c.require(scale * src0 + offset != 0)
+        before = c.snapshot(lens=sg)
+        lens.pickups.add(src, attr, tgt, scale, offset)
+        if src != tgt:
+            c.ensure_eq('C01.pickup.add_applies', get(tgt), scale * get(src) + offset)
+            c.ensure_eq('C01.pickup.source_untouched', get(src), src0)
+        else:
+            c.ensure_eq('C01.pickup.self_reference_uses_old_value', get(tgt), scale * src0 + offset)
+        pat = {'radius': 'lens.surfaces[%d].geometry.radius' % tgt, 'conic': 'lens.surfaces[%d].geometry.k' % tgt,
+               'thickness': 'lens.surfaces[*].geometry.cs.z'}[attr]
+        c.ensure_frame('C01.pickup.frame', before, c.snapshot(lens=sg), [pat])
+        if src != tgt:
+            # edit the source, then update(): the target follows
+            newsrc = c.real('new_source', 1.0, 50.0, positive=True)
+            if attr == 'radius':
+                lens.set_radius(newsrc, src)
+                c.require(scale * newsrc + offset != 0)
+            elif attr == 'conic':
+                lens.set_conic(newsrc, src)
+            else:
+                lens.set_thickness(newsrc, src)
+            lens.update()
+            c.ensure_eq('C01.update.pickup_holds', get(tgt), scale * get(src) + offset)
+            c.ensure_eq('C01.update.source_kept', get(src), newsrc)
+            # edit the *target* directly: update() re-establishes the pickup
+            junk = c.real('junk_target', 1.0, 50.0, positive=True)
+            if attr == 'radius':
+                lens.set_radius(junk, tgt)
+            elif attr == 'conic':
+                lens.set_conic(junk, tgt)
+            else:
+                lens.set_thickness(junk, tgt)
+            if not (attr == 'thickness' and False):
+                src_now = get(src)
+                if attr == 'radius':
+                    c.require(scale * src_now + offset != 0)
+                lens.update()
+                c.ensure_eq('C01.update.pickup_restored_after_target_edit', get(tgt), scale * src_now + offset)
+    return pk
+
+
+for _a in ('radius', 'conic', 'thickness'):
+    for (_s, _t) in ((1, 2), (3, 1), (2, 2), (1, 3)):
+        _pickup_contract(_a, _s, _t)
+
+
+# ------------------------------------------------------------------------------------------
+# solves
+# ------------------------------------------------------------------------------------------
+def _solve_contract(n, idx):
+    @contract('C01.solve.n%d.i%d' % (n, idx),
+              ['optiland/solves.py:MarginalRayHeightSolve.apply', 'optiland/solves.py:SolveManager.add',
+               'optiland/solves.py:SolveManager.apply', 'optiland/paraxial.py:Paraxial.marginal_ray',
+               OP + ':Optic.update'], ['C01'], max_paths=40)
+    def sv(c):
+        # infinite object + EPD aperture: the marginal-ray launch does not depend on any gap
+        lens, v = arbitrary_lens(c, n, stop=1, finite_object=False)
+        lens.add_wavelength(0.55, is_primary=True)
+        lens.set_aperture('EPD', c.real('EPD', 0.5, 10.0, positive=True))
+        h = c.real('height', -2.0, 2.0)
+        ya0, ua0 = lens.paraxial.marginal_ray()
+        c.require(c.val(ua0[idx - 1]) != 0)       # the ray reaching the surface is not parallel to the axis
+        c.require(c.val(ua0[idx]) != 0)
+        before = c.snapshot(lens=lens.surface_group)
+        lens.solves.add('marginal_ray_height', idx, h)
+        ya, ua = lens.paraxial.marginal_ray()
+        c.ensure_eq('C01.solve.height_reached', c.val(ya[idx]), h)
+        c.ensure_frame('C01.solve.frame', before, c.snapshot(lens=lens.surface_group),
+                       ['lens.surfaces[%d].geometry.cs.z' % j for j in range(idx, n)] +
+                       ['lens.surfaces[*].y', 'lens.surfaces[*].u', 'lens.surfaces[*].x', 'lens.surfaces[*].z',
+                        'lens.surfaces[*].L', 'lens.surfaces[*].M', 'lens.surfaces[*].N', 'lens.surfaces[*].opd',
+                        'lens.surfaces[*].intensity', 'lens.surfaces[*].aoi'])
+        z2 = zs(c, lens)
+        for j in range(idx, n - 1):
+            c.ensure_eq('C01.solve.later_gaps_rigid', z2[j + 1] - z2[j], v['z'][j + 1] - v['z'][j])
+        lens.update()       # idempotent: already satisfied
+        ya2, _ = lens.paraxial.marginal_ray()
+        c.ensure_eq('C01.update.solve_holds', c.val(ya2[idx]), h)
+    return sv
+
+
+for _n in (3, 4):
+    for _i in range(2, _n):
+        _solve_contract(_n, _i)
+
+
+def _image_solve_contract(n):
+    @contract('C01.image_solve.n%d' % n, [OP + ':Optic.image_solve', 'optiland/paraxial.py:Paraxial.marginal_ray'],
+              ['C01'], max_paths=40)
+    def isv(c):
+        lens, v = arbitrary_lens(c, n, stop=1, finite_object=False)
+        lens.add_wavelength(0.55, is_primary=True)
+        lens.set_aperture('EPD', c.real('EPD', 0.5, 10.0, positive=True))
+        ya0, ua0 = lens.paraxial.marginal_ray()
+        c.require(c.val(ua0[n - 1]) != 0)
+        before = c.snapshot(lens=lens.surface_group)
+        with c.no_raise('C01.image_solve.succeeds'):
+            lens.image_solve()
+        ya, ua = lens.paraxial.marginal_ray()
+        c.ensure_eq('C01.image_solve.marginal_height_zero', c.val(ya[n - 1]), 0)
+        c.ensure_frame('C01.image_solve.frame', before, c.snapshot(lens=lens.surface_group),
+                       ['lens.surfaces[%d].geometry.cs.z' % (n - 1), 'lens.surfaces[*].y', 'lens.surfaces[*].u',
+                        'lens.surfaces[*].x', 'lens.surfaces[*].z', 'lens.surfaces[*].L', 'lens.surfaces[*].M',
+                        'lens.surfaces[*].N', 'lens.surfaces[*].opd', 'lens.surfaces[*].intensity', 'lens.surfaces[*].aoi'])
+    return isv
+
+
+for _n in (3, 4):
+    _image_solve_contract(_n)
+
+
+# variable handles (shared with C14/C15)
+from . import variables as _variables  # noqa: E402
+_variables.register('C01', ['C01'])
